@@ -225,11 +225,16 @@ def _dowdom(ctx, rep, eng):
             rep.undecided("weekday-dom-search", c, rule.where, "search idiom not recognised")
             continue
         call = calls[0]
-        kw = {k.arg: norm(k.value) for k in call.keywords}
+        # dateutil's signature, so that positional and keyword spellings read the same
+        sig = ["freq", "dtstart", "interval", "wkst", "count", "until", "bysetpos", "bymonth",
+               "bymonthday", "byyearday", "byeaster", "byweekno", "byweekday"]
+        kw = {name: norm(a) for name, a in zip(sig, call.args)}
+        kw.update({k.arg: norm(k.value) for k in call.keywords})
         p1, p2 = rule.params[1], rule.params[2]
+        extra = set(kw) - {"freq", "dtstart", "count", "bymonthday", "byweekday"}
         ok = kw.get("dtstart") == rule.params[0] and kw.get("byweekday") == p1 + ".DOW" and \
             kw.get("bymonthday") == p2 + ".day" and kw.get("count") == "1" and \
-            call.args and norm(call.args[0]) in ("MONTHLY", "DAILY")
+            kw.get("freq") in ("MONTHLY", "DAILY") and not extra
         rep.add("weekday-dom-search", c, rule.where, bool(ok),
                 "" if ok else "rrule arguments are {}".format(kw))
 
